@@ -161,32 +161,33 @@ impl<'a, L> Engine<'a, L> {
     /// and it has a unique parent,
     /// then mark it as being a list node
     /// (i.e. it must not be rendered directly)
-    fn mark_list_node(&mut self, inode: usize) {
-        let (g_id, s_id) = &self.gs_id[inode];
-        debug_assert!(s_id.starts_with("_:"), "{}", s_id);
-        // NB: a node that is the object of no quad has no entry in `unique_parent`;
-        // it has no (unique) parent, so it can not be a list node.
-        if let Some(Some((iparent, pp))) = self.unique_parent.get(s_id) {
-            if self.options.processing_mode() == JsonLd1_0 && pp.as_ref() == RDF_FIRST {
-                return;
-            }
-            // node 'gs_id' has a unique parent
-            let (pg_id, ps_id) = &self.gs_id[*iparent];
-            if pg_id == g_id {
-                // unique parent is in the same graph
-                let map = &mut self.node[inode];
-                if is_list_node(map) {
-                    // this node is indeed a list node
-                    self.list_node.insert(s_id.clone(), *iparent);
-                    if ps_id.starts_with("_:") && pp.as_ref() == RDF_REST {
-                        let iparent = *iparent;
-                        // the explicit copy of iparent above is required,
-                        // to release the immutable borrow on self,
-                        // so that we can mutably borrow self below
-                        self.mark_list_node(iparent);
+    fn mark_list_node(&mut self, mut inode: usize) {
+        loop {
+            let (g_id, s_id) = &self.gs_id[inode];
+            debug_assert!(s_id.starts_with("_:"), "{}", s_id);
+            // NB: a node that is the object of no quad has no entry in `unique_parent`;
+            // it has no (unique) parent, so it can not be a list node.
+            if let Some(Some((iparent, pp))) = self.unique_parent.get(s_id) {
+                if self.options.processing_mode() == JsonLd1_0 && pp.as_ref() == RDF_FIRST {
+                    return;
+                }
+                // node 'gs_id' has a unique parent
+                let (pg_id, ps_id) = &self.gs_id[*iparent];
+                if pg_id == g_id {
+                    // unique parent is in the same graph
+                    let map = &mut self.node[inode];
+                    if is_list_node(map) {
+                        // this node is indeed a list node
+                        self.list_node.insert(s_id.clone(), *iparent);
+                        if ps_id.starts_with("_:") && pp.as_ref() == RDF_REST {
+                            // continue with the parent (traversing back the rdf:rest link)
+                            inode = *iparent;
+                            continue;
+                        }
                     }
                 }
             }
+            return;
         }
     }
 
@@ -380,17 +381,19 @@ impl<'a, L> Engine<'a, L> {
     fn populate_list(
         &self,
         list_items: &mut Vec<Meta<JsonValue<()>, ()>>,
-        inode: usize,
+        mut inode: usize,
     ) -> Result<(), JsonLdError> {
-        //println!("=== populate_list {}", gs_id);
-        let map = &self.node[inode];
-        list_items.push(self.convert_rdf_object(&map[RDF_FIRST][0])?);
-        if let RdfObject::Node(inext, id) = &map[RDF_REST][0] {
-            if id.as_ref() != RDF_NIL {
-                self.populate_list(list_items, *inext)?;
+        loop {
+            //println!("=== populate_list {}", gs_id);
+            let map = &self.node[inode];
+            list_items.push(self.convert_rdf_object(&map[RDF_FIRST][0])?);
+            match &map[RDF_REST][0] {
+                RdfObject::Node(inext, id) if id.as_ref() != RDF_NIL => {
+                    inode = *inext;
+                }
+                _ => return Ok(()),
             }
         }
-        Ok(())
     }
 }
 
